@@ -20,6 +20,7 @@ package resilience
 import (
 	"context"
 	"fmt"
+	"math"
 	"math/rand"
 	"time"
 )
@@ -55,6 +56,22 @@ func (p *RetryPolicy) Validate() error {
 	// factor makes Wrap call rand.Intn with a negative argument.
 	if p.RandomizationFactor < 0 || p.RandomizationFactor > 1 {
 		return fmt.Errorf("randomizationFactor must be in [0, 1]")
+	}
+
+	// Wrap computes the waits in float64 nanoseconds and converts them to int
+	// (rand.Intn) and time.Duration: the longest possible wait, that of the
+	// last attempt, must fit into an int64, otherwise rand.Intn panics or
+	// the wait becomes negative.
+	d, _ := time.ParseDuration(p.WaitDuration)
+	if d <= 0 {
+		d = time.Millisecond * 500
+	}
+	base := float64(d)
+	if p.BackOffPolicy == "exponential" && p.MaxAttempts > 1 {
+		base *= math.Pow(1.5, float64(p.MaxAttempts-1))
+	}
+	if base*(1+p.RandomizationFactor)+1 >= math.MaxInt64 {
+		return fmt.Errorf("waitDuration %s is too large for %d attempts", p.WaitDuration, p.MaxAttempts)
 	}
 	return nil
 }
